@@ -286,6 +286,23 @@ def check_unparse(path, part):
 
 # ------------------------------------------------------------------ units
 
+# expressions whose AST child order is not their source order (keyword before *args, conditional expression, dict display with **,
+# class keywords before *bases, chained comparison, call of a call, subscripts, f-strings): where such an expression ENDS decides
+# whether the target of the assignment it is the value of is already bound for a read inside it and for the read after it
+OUT_OF_ORDER = [h + t for h in ('', 'value = 0\n') for t in (
+    'def g(*a, **k):\n    return a, k\nvalue = g(key=1, *value)\nprint(value)\n',
+    'def g(*a, **k):\n    return a, k\nvalue = g(key=g(), *[value, g(k=2, *value)])\nprint(value)\n',
+    'def g(*a, **k):\n    return a, k\nvalue = g(k1=1, *value, k2=value, **value)\nprint(value)\n',
+    'value = [1, 2] if value else [value, 3]\nprint(value)\n',
+    'value = {**{1: 2}, 3: value, **value}\nprint(value)\n',
+    'class M(type):\n    pass\nclass value(metaclass=M, *value):\n    pass\nprint(value)\n',
+    'value = (1 < 2, value < 3 < value)\nprint(value)\n',
+    'value = f"{1!r:>{value}} {value}"\nprint(value)\n',
+    'def g(*a, **k):\n    return g\nvalue = g(k=1, *value)(2, value)[value, 3]\nprint(value)\n',
+    'value = [(value, y) for y in (1, value)]\nprint(value)\n',
+    'value = lambda a, *value, k=value, **kw: (a, value)\nprint(value)\n',
+)]
+
 _SP = {}
 
 
@@ -299,6 +316,7 @@ def space(tier):
     # decorated definitions as the first statement of a block whose header binds the name the decorator reads
     deco = {'def-decorator', 'class-decorator', 'comp-in-decorator', 'plain-comp-in-decorator', 'def-annotations', 'def-param-default', 'class-bases'}
     progs += [('feat-nested', p) for p in names_run.feature_programs(2, names=deco)]
+    progs += [('raw', t) for t in OUT_OF_ORDER]
     seen = set()
     out = []
     for o, p in progs:
@@ -313,9 +331,9 @@ def unit_progs(arg):
     tier, lo, hi, depth = arg
     part = Part()
     for origin, prog in space(tier)[lo:hi]:
-        text = ps.render(prog, 'plain').text
+        text = prog if origin == 'raw' else ps.render(prog, 'plain').text
         part.count('programs')
-        for sig, what, wit in check_text(text, nc.FILE, 'generated program', part, depth if origin != 'core' or len(repr(prog)) < 60 else 1):
+        for sig, what, wit in check_text(text, nc.FILE, 'generated program', part, 2 if origin == 'raw' else depth if origin != 'core' or len(repr(prog)) < 60 else 1):
             part.violation(sig, what, wit)
     part.outcome(('progs', lo, part.counters['layouts']))
     if lo == 0:
